@@ -48,7 +48,8 @@ Theorem C15_read_counts : forall s n,
   let '(s', bytes, notes) := uf_read s n in
   u_gcount s' = Z.of_nat (length bytes) /\ u_tellg s' = u_tellg s + u_gcount s' /\
   0 <= u_gcount s' <= Z.max 0 n /\ (u_fsz s < n + u_tellg s -> u_tellg s' <= Z.max (u_tellg s) (u_fsz s)) /\
-  (uf_good s' = negb (u_fsz s <? n + u_tellg s)) /\ (uf_eof s' = (u_fsz s <? n + u_tellg s)) /\
+  (u_fsz s < n + u_tellg s -> uf_good s' = false /\ uf_eof s' = true) /\ (n + u_tellg s <= u_fsz s -> 0 < n -> uf_good s' = true /\ uf_eof s' = false) /\
+  (n + u_tellg s <= u_fsz s -> n <= 0 -> u_rd s' = u_rd s) /\
   u_tellp s' = u_tellp s /\ u_data s' = u_data s /\ u_fsz s' = u_fsz s /\ notes = [CVU_tellg].
 Proof. exact read_counts. Qed.
 Print Assumptions C15_read_counts.
